@@ -22,7 +22,9 @@ Record rst := {
 Definition rst0 : rst := {| r_pending := []; r_bufs := []; r_gen := 0; r_age := 0; r_calls := []; r_delivered := [] |}.
 
 Inductive lab :=
-| LStartWait (c : N)                 (* Call: request written, receive() looks its channel up *)
+| LStartWait (c : N)                 (* Call: LRegister then LReceive with nothing in between *)
+| LRegister (c : N)                  (* Call: registers as waiting for its reply, then writes the request *)
+| LReceive (c : N)                   (* Call: receive() looks its channel up again and blocks on it *)
 | LDeliver (i : N) (p : payload)     (* Serve reads a reply with id i and routes it *)
 | LWake (c : N)                      (* the waiting call takes the message from its channel *)
 | LCancel (c : N).                   (* the call's context ends *)
@@ -61,28 +63,57 @@ Fixpoint buf_del (i : N) (g : nat) (b : list (N * nat * payload)) : list (N * na
   | (i', g', p) :: r => if N.eqb i i' && Nat.eqb g g' then r else (i', g', p) :: buf_del i g r
   end.
 
+(* Call registers as waiting (waitPending before the request is written; the pinned code has no
+   such step: there this is the single lookup of receive()) *)
+Definition reg_step (fixed : bool) (limit discard : nat) (s : rst) (c : N) : option rst :=
+  match aget c (r_calls s) with
+  | Some _ => None                       (* ids are fresh: a call starts waiting once *)
+  | None =>
+      let m := clean fixed limit discard (r_pending s) in
+      match aget c m with
+      | Some e =>                         (* the reply arrived first: its channel is there *)
+          Some {| r_pending := aset c {| pe_gen := pe_gen e; pe_waiting := true; pe_age := pe_age e |} m;
+                  r_bufs := r_bufs s; r_gen := r_gen s; r_age := r_age s;
+                  r_calls := aset c (PWaiting (pe_gen e)) (r_calls s); r_delivered := r_delivered s |}
+      | None =>
+          Some {| r_pending := aset c {| pe_gen := r_gen s; pe_waiting := true; pe_age := r_age s |} m;
+                  r_bufs := r_bufs s; r_gen := S (r_gen s); r_age := S (r_age s);
+                  r_calls := aset c (PWaiting (r_gen s)) (r_calls s); r_delivered := r_delivered s |}
+      end
+  end.
+
+(* receive(): the repaired Call looks its channel up a second time (running the discard rule
+   again) and waits on whatever channel the table then holds for its id — a fresh one if its
+   entry is gone *)
+Definition recv_step (fixed : bool) (limit discard : nat) (s : rst) (c : N) : option rst :=
+  match aget c (r_calls s) with
+  | Some (PWaiting _) =>
+      if fixed then
+        let m := clean fixed limit discard (r_pending s) in
+        match aget c m with
+        | Some e =>
+            Some {| r_pending := aset c {| pe_gen := pe_gen e; pe_waiting := true; pe_age := pe_age e |} m;
+                    r_bufs := r_bufs s; r_gen := r_gen s; r_age := r_age s;
+                    r_calls := aset c (PWaiting (pe_gen e)) (r_calls s); r_delivered := r_delivered s |}
+        | None =>
+            Some {| r_pending := aset c {| pe_gen := r_gen s; pe_waiting := true; pe_age := r_age s |} m;
+                    r_bufs := r_bufs s; r_gen := S (r_gen s); r_age := S (r_age s);
+                    r_calls := aset c (PWaiting (r_gen s)) (r_calls s); r_delivered := r_delivered s |}
+        end
+      else Some s
+  | _ => None
+  end.
+
 (* None = the transition is not enabled (or Serve would block on a full channel) *)
 Definition rstep (fixed : bool) (limit discard : nat) (s : rst) (l : lab) : option rst :=
   match l with
   | LStartWait c =>
-      match aget c (r_calls s) with
-      | Some _ => None                       (* ids are fresh: a call starts waiting once *)
-      | None =>
-          let m := clean fixed limit discard (r_pending s) in
-          (* the repaired Call looks its channel up twice: when it registers as waiting before
-             sending the request, and again in receive(); each lookup runs the discard rule *)
-          let again := fun m1 => if fixed then clean fixed limit discard m1 else m1 in
-          match aget c m with
-          | Some e =>                         (* the reply arrived first: its channel is there *)
-              Some {| r_pending := again (aset c {| pe_gen := pe_gen e; pe_waiting := true; pe_age := pe_age e |} m);
-                      r_bufs := r_bufs s; r_gen := r_gen s; r_age := r_age s;
-                      r_calls := aset c (PWaiting (pe_gen e)) (r_calls s); r_delivered := r_delivered s |}
-          | None =>
-              Some {| r_pending := again (aset c {| pe_gen := r_gen s; pe_waiting := true; pe_age := r_age s |} m);
-                      r_bufs := r_bufs s; r_gen := S (r_gen s); r_age := S (r_age s);
-                      r_calls := aset c (PWaiting (r_gen s)) (r_calls s); r_delivered := r_delivered s |}
-          end
+      match reg_step fixed limit discard s c with
+      | Some s1 => recv_step fixed limit discard s1 c
+      | None => None
       end
+  | LRegister c => reg_step fixed limit discard s c
+  | LReceive c => recv_step fixed limit discard s c
   | LDeliver i p =>
       let m := clean fixed limit discard (r_pending s) in
       let '(g, m', gen', age') :=
